@@ -1,5 +1,6 @@
 mod cell;
 mod chain;
+mod api;
 mod c03;
 mod c15;
 mod conc;
@@ -185,6 +186,10 @@ fn main() {
         "list-stress" => {
             let (cycles, _c, fails) = liststress::run(&out, seed, thorough);
             println!("list-stress: register_exit_cycles={} property_failures={}", cycles, fails);
+        }
+        "api" => {
+            let (checks, _p, fails) = api::run(&out, seed, thorough);
+            println!("api: property_checks={} property_failures={}", checks, fails);
         }
         "c03" => {
             let (checks, _p, fails) = c03::run(&out, seed, thorough);
